@@ -359,6 +359,10 @@ func (w *w6World) Gen(rng *rand.Rand, property, tier string) (any, simrt.Sched) 
 				if len(st.Set) == 0 {
 					st.Set["readTimeout"] = `"14s"`
 				}
+				if property == "C12" && rng.Intn(8) == 0 {
+					// a parameter under its old name (still accepted by the file loader and by the API)
+					st.Set = map[string]string{"readBufferCount": "256"}
+				}
 			case k < 8:
 				st.Kind = "defaults"
 				st.Set = w6PathFields(rng)
@@ -1046,7 +1050,13 @@ func (w *w6World) Run(t *testing.T, sc *simrt.Scenario, cfg simrt.Config) simrt.
 				// carries, to the value the same text gives when it is read from a configuration file
 				exactChecks++
 				if msg := w6Exact(dir, confBefore, p.conf.Load(), soleGlobal.Set, p); msg != "" {
-					simrt.Violate("C12", "patch-not-exact", "API patch %s: %s", w6Payload(soleGlobal.Set), msg)
+					clause := "patch-not-exact"
+					if confBefore.ReadBufferCount != nil && strings.HasPrefix(msg, "field writeQueueSize is ") {
+						// the configuration in force carries the parameter under its old name
+						// (readBufferCount): every later edit converts it again, over the new value
+						clause = "old-name-reapplied"
+					}
+					simrt.Violate("C12", clause, "API patch %s: %s", w6Payload(soleGlobal.Set), msg)
 					break
 				}
 			}
@@ -1144,8 +1154,19 @@ func w6Exact(dir string, before, after *conf.Conf, set map[string]string, lg log
 		}
 	}
 	sort.Strings(all)
+	// a parameter given under its old name also sets the parameter that replaced it: what the
+	// same text yields through the file loader, where that differs from an empty file
+	var md map[string]json.RawMessage
+	fp0 := filepath.Join(dir, "exact0.yml")
+	os.WriteFile(fp0, []byte("{}\n"), 0o644)
+	if def, _, err := conf.Load(fp0, nil, lg); err == nil {
+		md, _ = toMap(def)
+	}
 	for _, k := range all {
 		if inSet[k] {
+			continue
+		}
+		if md != nil && string(ma[k]) == string(mr[k]) && string(mr[k]) != string(md[k]) {
 			continue
 		}
 		if string(ma[k]) != string(mb[k]) {
